@@ -200,6 +200,27 @@ def _awkward(m, factor, big):
                 p.value = [f(x) * (1 + 0.01 * i) for i, x in enumerate(v)]
 
 
+def eq_fields():
+    """(category, name) of the fields the client reads from '  <name> = <text>' lines."""
+    R = GR.GeophiresXResult
+    kind = getattr(GR, '_EqualSignDelimitedField', ())
+    out = [(cat, f.field_name) for cat, fields in R._RESULT_FIELDS_BY_CATEGORY.items() for f in fields if kind and isinstance(f, kind)]
+    out += [('metadata', f) for f in getattr(R, '_METADATA_FIELDS', [])]
+    return out
+
+
+def eq_field_checks(text, result):
+    """name -> (ok, detail): the client returns exactly the text printed after '<name> = ' (None iff no such line)."""
+    out = {}
+    for cat, fname in eq_fields():
+        marker = f'  {fname} = '
+        printed = {ln.split(marker)[1] for ln in text.splitlines() if marker in ln}
+        got = (result.get(cat) or {}).get(fname)
+        ok = (got is None) if not printed else (len(printed) == 1 and got in printed)
+        out[(cat, fname)] = (ok, {'printed after the equal sign': sorted(printed)[:3], 'client returns': got})
+    return out
+
+
 def concrete_roundtrip(cfg, mode='pad'):
     """replay: the real writer on the real float model (quantities given awkward / wide values according to the rendering mode of the
     counterexample), the real parser on its file; every parsed field must be the number printed on a line carrying that label, all such
@@ -239,6 +260,9 @@ def _roundtrip_once(cfg, factor, big):
     bad = []
     if csv_error:
         bad.append(('as_csv', 'raised', csv_error, ''))
+    for (cat, fname), (ok, det) in eq_field_checks(text, res.result).items():
+        if not ok:
+            bad.append((cat, fname, det['client returns'], f'line prints {det["printed after the equal sign"]}'))
     lines = text.splitlines()
     bylabel = {}
     for raw in lines:
@@ -336,6 +360,8 @@ def run_unit(unit):
         def term_of(k):
             t, spec = c.tokens[k]
             return rnd(t, spec)
+        for (cat, fname), (ok, det) in eq_field_checks(text, res.result).items():
+            harness.discharge(log, c, f'[{cat}] "{fname} = ...": the client returns the text printed after the equal sign (not dropped, not invented)', bool(ok), zv, conc)
         nfields = 0
         for cat, fields in res.result.items():
             if cat == 'metadata' or not isinstance(fields, dict):
